@@ -27,6 +27,16 @@ CHECKS = {
             "Every boundary between two physical batch writes of every SaveVersion, DeleteVersionsTo, LoadVersionForOverwriting, fast-index build on open and import commit in generated histories (flush thresholds 150..default) is materialised as a storage image; a fresh tree must Load() it, show the version set before or after (contiguous intermediate for multi-version deletions), read every version correctly on every path (walk, Iterator, fast Get, GetVersioned) with both fast-index settings, and repeating the operation must reach the crash-free result.",
             "Crash model as stated by the property (atomic ordered batch writes; no torn batches; backend durability not modelled). Oracles M and R.",
             "DESIGN.md §3 C05"),
+    "C06": ("exploration",
+            "sanitizer + runtime monitoring: Go race detector over a writer/readers stress workload with widened windows; snapshot oracle for every concurrent read; deterministic parking of the writer at verif yield points (hook points x reader operations enumerated); porcupine linearizability check of the commit/prune/open visibility history; export-pin protocol check",
+            "Race-detector build. Stress runs (8 configurations x repetitions x 2-16 readers) with every reader result compared to the snapshot published at commit; oracle mode parks the writer at the protocol boundaries and runs every reader operation there; visibility history checked against the per-version model; pinned versions cannot be deleted.",
+            "Only schedules that happened are judged. Race reports are attributed to iavl only if both stacks contain a non-test iavl frame. MutableTree methods other than GetImmutable are not called concurrently (outside the statement).",
+            "DESIGN.md §3 C06"),
+    "C18": ("exploration",
+            "runtime monitoring: differential execution of random KV programs on all bundled backends and nestings against a sorted-map model, with sentinel keys around prefix ranges and a concurrent batch-atomicity probe",
+            "Random programs of point ops, rejected writes, bounded forward/reverse iterators and batch life cycles over a 0x00/0xFF-heavy alphabet on MemDB, GoLevelDB, PrefixDB(MemDB), PrefixDB(GoLevelDB), PrefixDB(PrefixDB(MemDB)); parents hold sentinels below/at/above the prefix range incl. the 0xFF carry case.",
+            "Trusted: the sorted-map model. Key()/Next() are never called on invalid iterators.",
+            "DESIGN.md §3 C18"),
     "C07": ("exploration",
             "runtime monitoring: differential monitor indexed reads vs tree-walk reads after every step, plus raw fast-index audit with the independent decoder, every (re)open choosing index on/off and the version to load",
             "After every step: Get vs GetWithIndex, MutableTree.Iterator/Iterate vs IterateRange, GetVersioned vs GetImmutable(v).GetWithIndex on working tree (incl. uncommitted changes), latest and older versions; raw 'f' entries and label vs the model after every commit/open with the index enabled.",
